@@ -126,6 +126,28 @@ var $recover = () => {
 };
 var $throw = err => { throw err; };
 
+// runtime.Goexit(): runs the pending deferred calls of every function of the
+// goroutine, innermost first (recover() returns nil in them), then unwinds the
+// JavaScript stack. All $deferred lists are empty and popped by then, so the
+// functions being unwound re-throw instead of returning to their callers.
+var $goexit = () => {
+    var goroutine = $curGoroutine;
+    while (goroutine.deferStack.length > 0 && !goroutine.asleep) {
+        try {
+            $callDeferred(goroutine.deferStack[goroutine.deferStack.length - 1], null);
+        } catch (err) {
+            if (err !== null) {
+                throw err; /* a deferred call panicked and nothing recovered it */
+            }
+            /* a panic raised by a deferred call was recovered: Goexit goes on */
+        }
+    }
+    if (!goroutine.asleep) {
+        goroutine.exit = true;
+    }
+    throw null;
+};
+
 var $noGoroutine = { asleep: false, exit: false, deferStack: [], panicStack: [] };
 var $curGoroutine = $noGoroutine, $totalGoroutines = 0, $awakeGoroutines = 0, $checkForDeadlock = true, $exportedFunctions = 0;
 var $mainFinished = false;
